@@ -31,16 +31,92 @@ struct Case {
     pseed: u64,
 }
 
+/// How many bytes the sink takes per call. `Write::write` may legally accept any 1..=len bytes and
+/// `write_vectored` any prefix of the concatenated slices (pipes, sockets, rate-limited writers).
+#[derive(Clone, Copy, Debug, Default, PartialEq)]
+enum Accept {
+    #[default]
+    All,
+    /// at most k bytes per write call (default write_vectored = first non-empty slice)
+    AtMost(usize),
+    /// a seeded random 1..=len
+    Random,
+    /// a real vectored sink that takes at most k bytes per call across all slices
+    Vectored(usize),
+}
+
 #[derive(Clone, Default)]
-struct SharedSink(Arc<Mutex<Vec<u8>>>);
+struct SharedSink(Arc<Mutex<Vec<u8>>>, Accept, Arc<Mutex<(u64, u64)>>);
+
+impl SharedSink {
+    fn take(&self, len: usize) -> usize {
+        let mut st = self.2.lock().unwrap();
+        let n = match self.1 {
+            Accept::All => len,
+            Accept::AtMost(k) | Accept::Vectored(k) => len.min(k.max(1)),
+            Accept::Random => {
+                // xorshift; the state is seeded from the case
+                st.0 ^= st.0 << 13;
+                st.0 ^= st.0 >> 7;
+                st.0 ^= st.0 << 17;
+                1 + (st.0 % len as u64) as usize
+            }
+        };
+        if n < len {
+            st.1 += 1;
+        }
+        n
+    }
+    fn short_writes(&self) -> u64 {
+        self.2.lock().unwrap().1
+    }
+}
 
 impl Write for SharedSink {
     fn write(&mut self, buf: &[u8]) -> std::io::Result<usize> {
-        self.0.lock().unwrap().extend_from_slice(buf);
-        Ok(buf.len())
+        if buf.is_empty() {
+            return Ok(0);
+        }
+        let n = self.take(buf.len());
+        self.0.lock().unwrap().extend_from_slice(&buf[..n]);
+        Ok(n)
+    }
+    fn write_vectored(&mut self, bufs: &[std::io::IoSlice<'_>]) -> std::io::Result<usize> {
+        if let Accept::Vectored(_) = self.1 {
+            let total: usize = bufs.iter().map(|b| b.len()).sum();
+            if total == 0 {
+                return Ok(0);
+            }
+            let mut left = self.take(total);
+            let n = left;
+            let mut v = self.0.lock().unwrap();
+            for b in bufs {
+                let k = b.len().min(left);
+                v.extend_from_slice(&b[..k]);
+                left -= k;
+            }
+            Ok(n)
+        } else {
+            match bufs.iter().find(|b| !b.is_empty()) {
+                Some(b) => self.write(b),
+                None => Ok(0),
+            }
+        }
     }
     fn flush(&mut self) -> std::io::Result<()> {
         Ok(())
+    }
+}
+
+/// The sink discipline of a case, a function of its seed (so that replays reproduce it).
+fn accept_of(c: &Case) -> Accept {
+    let h = c.pseed.wrapping_mul(0x9E37_79B9_7F4A_7C15) >> 33;
+    let ks = [1usize, 7, 17, 18, 19, 25, 26, 27, 4096, 65535];
+    match h % 8 {
+        1 => Accept::AtMost(ks[(h / 8) as usize % ks.len()]),
+        3 => Accept::Random,
+        5 => Accept::Vectored(ks[(h / 8) as usize % ks.len()]),
+        _ => Accept::All,
     }
 }
 
@@ -53,6 +129,8 @@ impl SharedSink {
 struct CaseResult {
     fp: u64,
     blocks: usize,
+    short_writes: u64,
+    accept: Accept,
     expanding_blocks: usize,
     max_member: usize,
     violation: Option<(String, String)>,
@@ -63,14 +141,15 @@ struct CaseResult {
 fn case_json(c: &Case) -> serde_json::Value {
     json!({"class": c.class, "len": c.len, "split": c.split, "flush_every": c.flush_every,
            "flush_on_empty": c.flush_on_empty, "raw_write": c.raw_write, "level": c.level,
-           "end": c.end, "pseed": c.pseed})
+           "end": c.end, "pseed": c.pseed, "sink": format!("{:?}", accept_of(c))})
 }
 
 fn run_case(c: &Case) -> CaseResult {
     let mut rng = Rng::new(c.pseed, 1, 0);
     let data = payload::make(&c.class, c.len, &mut rng);
     let pieces = payload::split_pattern(&c.split, c.len, &mut rng);
-    let sink = SharedSink::default();
+    let accept = accept_of(c);
+    let sink = SharedSink(Default::default(), accept, Arc::new(Mutex::new((c.pseed | 1, 0))));
     let level = bgzf::io::writer::CompressionLevel::new(c.level).expect("level 0..=9");
     let mid_try_finish = c.pseed % 6 == 0 && pieces.len() >= 2;
 
@@ -165,6 +244,8 @@ fn run_case(c: &Case) -> CaseResult {
     let mut res = CaseResult {
         fp: 0,
         blocks: 0,
+        short_writes: sink.short_writes(),
+        accept,
         expanding_blocks: 0,
         max_member: 0,
         violation: None,
@@ -297,7 +378,7 @@ fn run_case(c: &Case) -> CaseResult {
         65280..=65537 => 3 + (c.len - 65280) as u64,
         _ => 400 + (c.len / 65495) as u64,
     };
-    res.fp = fnv1a(format!("{}|{}|{}|{}|{}|{}|{}|{}", c.class, len_class, c.split, c.flush_every, c.raw_write, c.level, c.end, res.blocks).as_bytes()) ^ (c.pseed % 6 == 0) as u64;
+    res.fp = fnv1a(format!("{}|{}|{}|{}|{}|{}|{}|{}|{:?}", c.class, len_class, c.split, c.flush_every, c.raw_write, c.level, c.end, res.blocks, std::mem::discriminant(&accept)).as_bytes()) ^ (c.pseed % 6 == 0) as u64;
     res
 }
 
@@ -428,9 +509,10 @@ fn main() {
     let ctx = Ctx::from_args();
     let mut rep = Report::new(
         "case = (payload class, length, split pattern of write calls, flush policy, raw write vs write_all, \
-         compression level 0..=9, end mode finish/try_finish+drop/drop); deterministic corpus over every boundary \
+         compression level 0..=9, end mode finish/try_finish+drop/drop, sink discipline [accepts all / at most k per write / \
+         random partial / vectored at most k; 3 in 8 cases partial]); deterministic corpus over every boundary \
          length plus a VERIF_SEED-seeded random part; distinct = distinct (class, length class [exact within \
-         65280..=65537], split, flush policy, raw, level, end mode, emitted member count); non-trivial = all \
+         65280..=65537], split, flush policy, raw, level, end mode, emitted member count, sink discipline); non-trivial = all \
          (every case writes a file that is walked and read back)",
     );
     rep.assumptions.push("independent oracle = miniz_oxide inflate + table CRC32 (and CPython zlib on the dumped sample); default zlib-rs backend only (libdeflate feature not built)".into());
@@ -449,6 +531,8 @@ fn main() {
         o.max("max_member_size", r.max_member as u64);
         o.count(&format!("level[{}]", c.level), 1);
         o.count(&format!("end[{}]", c.end), 1);
+        o.count(&format!("sink[{}]", match r.accept { Accept::All => "accepts-all", Accept::AtMost(_) => "at-most-k-per-write", Accept::Random => "random-partial", Accept::Vectored(_) => "vectored-at-most-k" }), 1);
+        o.count("sink_short_writes", r.short_writes);
         if i % 41 == 0 {
             o.sample = Some(case_json(c));
         }
